@@ -16,7 +16,8 @@ from ..sched import run_concurrent
 from ..world import GITAI, session_hash
 
 SCENARIOS = ["ckpt_distinct_files", "ckpt_distinct_files", "ckpt_same_file", "ckpt_vs_commit", "commits_two_worktrees",
-             "rebase_vs_commit", "ckpt_three", "ckpt_after_head_moved", "first_sync_fetch_vs_commit", "first_sync_fetch_vs_commit"]
+             "rebase_vs_commit", "ckpt_three", "ckpt_after_head_moved", "first_sync_fetch_vs_commit", "first_sync_fetch_vs_commit",
+             "ckpt_before_commit_runs"]
 
 
 def ai_dirs(w, repo):
@@ -76,7 +77,7 @@ class C11(Prop):
     assumptions = ["a real git subprocess is atomic for the scheduler", "BLOCKING_MAX_THREADS=1 serialises git-ai's "
                    "internal worker pool (one schedulable thread per process)"]
     expected_probes = ["interleaved", "scenario.ckpt_distinct_files", "scenario.rebase_vs_commit", "scenario.ckpt_after_head_moved",
-                       "scenario.first_sync_fetch_vs_commit", "point.ckpt.append.before_write",
+                       "scenario.first_sync_fetch_vs_commit", "scenario.ckpt_before_commit_runs", "point.ckpt.append.before_write",
                        "point.git:fast-import", "policy.pct", "policy.stale"]
 
     def header(self, rng, tier, index):
@@ -138,6 +139,18 @@ class C11(Prop):
             edit(r0, "f3.txt", "s2")
             ex.gen_state["hold"] = {"p2": ("p1", ":proxied")}
             return [("p1", [gitw, "commit", "-q", "-m", "c1"], r0, {}), ckpt("p2", r0, ["f3.txt"], "s2", 1)], closing
+        if sc == "ckpt_before_commit_runs":
+            # a person commits their own (human-only) work while an agent reports an edit of another file; the report
+            # may start anywhere but has completed before the commit's own git runs (the person was still typing the
+            # message): post-commit must see it, whatever the pre-commit step concluded about the working log
+            w.ckpt_human(r0, ["f1.txt", "f2.txt"])
+            old = w.read(r0, "f1.txt") or ""
+            w.write(r0, "f1.txt", old + "L%d typed by the person\n" % ex.fresh_id())
+            ex.ledger.edit(old, w.read(r0, "f1.txt"), "human")
+            w.raw_git(r0, "add", "f1.txt")
+            edit(r0, "f2.txt", "s2")
+            ex.gen_state["hold_at"] = {"p1": (":proxied", "p2")}
+            return [("p1", [gitw, "commit", "-q", "-m", "human work"], r0, {}), ckpt("p2", r0, ["f2.txt"], "s2", 1)], closing
         if sc == "first_sync_fetch_vs_commit":
             # a clone that has never synced notes (made with plain git) fetches while it commits its first AI work:
             # the remote's notes arrive, the clone's own first note must not be lost
@@ -237,7 +250,8 @@ class C11(Prop):
         w = ex.w
         w.snapshot("pre")
         hold = ex.gen_state.get("hold")
-        run = run_concurrent(w, cmds, rng=rng, choices=choices, policy=cfg["policy"], hold=hold)
+        hold_at = ex.gen_state.get("hold_at")
+        run = run_concurrent(w, cmds, rng=rng, choices=choices, policy=cfg["policy"], hold=hold, hold_at=hold_at)
         conc = self.observe(ex, closing, run["results"])
         labels = [c[0] for c in cmds]
         # distinct interleaving measure + probes
@@ -264,6 +278,8 @@ class C11(Prop):
             results = {}
             if hold and [cmds[i][0] for i in perm][0] in hold:
                 continue        # an order the scenario's start constraint excludes
+            if hold_at and [cmds[i][0] for i in perm][0] in hold_at:
+                continue        # (the held party cannot complete first)
             for i in perm:
                 r = run_concurrent(w, [cmds[i]], rng=None, choices=None)
                 results.update(r["results"])
